@@ -72,7 +72,7 @@ func c03Trunc(x string) string {
 
 // ---------- Coq printing ----------
 
-func coqStr(s string) string { return `"` + strings.ReplaceAll(s, `"`, `""`) + `"%string` }
+func coqStr(s string) string { return `($"` + strings.ReplaceAll(s, `"`, `""`) + `")` }
 func coqZ(z string) string {
 	if strings.HasPrefix(z, "-") {
 		return "(" + z + ")%Z"
